@@ -163,6 +163,8 @@ macro_rules! impl_ops {
             type Output = Self;
             #[inline]
             fn neg(self) -> Self {
+                #[cfg(softposit_verif)]
+                $crate::verif_trace::un("neg", <$T>::BITS, self.to_bits() as u64, self.neg().to_bits() as u64);
                 self.neg()
             }
         }
@@ -171,6 +173,8 @@ macro_rules! impl_ops {
             type Output = Self;
             #[inline]
             fn add(self, other: Self) -> Self {
+                #[cfg(softposit_verif)]
+                $crate::verif_trace::bin("add", <$T>::BITS, self.to_bits() as u64, other.to_bits() as u64, self.add(other).to_bits() as u64);
                 self.add(other)
             }
         }
@@ -179,6 +183,8 @@ macro_rules! impl_ops {
             type Output = Self;
             #[inline]
             fn sub(self, other: Self) -> Self {
+                #[cfg(softposit_verif)]
+                $crate::verif_trace::bin("sub", <$T>::BITS, self.to_bits() as u64, other.to_bits() as u64, self.sub(other).to_bits() as u64);
                 self.sub(other)
             }
         }
@@ -187,6 +193,8 @@ macro_rules! impl_ops {
             type Output = Self;
             #[inline]
             fn div(self, other: Self) -> Self {
+                #[cfg(softposit_verif)]
+                $crate::verif_trace::bin("div", <$T>::BITS, self.to_bits() as u64, other.to_bits() as u64, self.div(other).to_bits() as u64);
                 self.div(other)
             }
         }
@@ -195,6 +203,8 @@ macro_rules! impl_ops {
             type Output = Self;
             #[inline]
             fn mul(self, other: Self) -> Self {
+                #[cfg(softposit_verif)]
+                $crate::verif_trace::bin("mul", <$T>::BITS, self.to_bits() as u64, other.to_bits() as u64, self.mul(other).to_bits() as u64);
                 self.mul(other)
             }
         }
@@ -852,7 +862,11 @@ macro_rules! quire_add_sub {
             fn add_assign(&mut self, rhs: ($posit, $posit)) {
                 let ui_a = (rhs.0).to_bits();
                 let ui_b = (rhs.1).to_bits();
+                #[cfg(softposit_verif)]
+                let verif_pre = self.to_bits();
                 fdp(self, ui_a, ui_b, true);
+                #[cfg(softposit_verif)]
+                $crate::verif_trace::qstep(<$posit>::BITS, false, false, ui_a as u64, ui_b as u64, verif_pre, self.to_bits());
             }
         }
 
@@ -877,7 +891,11 @@ macro_rules! quire_add_sub {
             #[inline]
             fn add_assign(&mut self, rhs: $posit) {
                 let ui = rhs.to_bits();
+                #[cfg(softposit_verif)]
+                let verif_pre = self.to_bits();
                 fdp_one(self, ui, true);
+                #[cfg(softposit_verif)]
+                $crate::verif_trace::qstep(<$posit>::BITS, false, true, ui as u64, 0, verif_pre, self.to_bits());
             }
         }
 
@@ -896,7 +914,11 @@ macro_rules! quire_add_sub {
             fn sub_assign(&mut self, rhs: ($posit, $posit)) {
                 let ui_a = (rhs.0).to_bits();
                 let ui_b = (rhs.1).to_bits();
+                #[cfg(softposit_verif)]
+                let verif_pre = self.to_bits();
                 fdp(self, ui_a, ui_b, false);
+                #[cfg(softposit_verif)]
+                $crate::verif_trace::qstep(<$posit>::BITS, true, false, ui_a as u64, ui_b as u64, verif_pre, self.to_bits());
             }
         }
 
@@ -904,7 +926,11 @@ macro_rules! quire_add_sub {
             #[inline]
             fn sub_assign(&mut self, rhs: $posit) {
                 let ui = rhs.to_bits();
+                #[cfg(softposit_verif)]
+                let verif_pre = self.to_bits();
                 fdp_one(self, ui, false);
+                #[cfg(softposit_verif)]
+                $crate::verif_trace::qstep(<$posit>::BITS, true, true, ui as u64, 0, verif_pre, self.to_bits());
             }
         }
 
